@@ -9,7 +9,9 @@ import (
 	"crypto/sha256"
 	"crypto/sha512"
 	"crypto/x509"
+	"crypto"
 	"errors"
+	"hash"
 	"io"
 
 	"github.com/fido-device-onboard/go-fdo/cbor"
@@ -357,4 +359,78 @@ func VerifC03_TwoHandovers() {
 	verif.Assert(ok, "second replacement voucher stored")
 	vCheckAgreement(v3, cred2, t.secret, "after the second TO2")
 	verif.Reached("end")
+}
+
+// the device's HMAC engine (e.g. a TPM) faults at one of its digest finalisations:
+// DI / TO2 either fail without a credential, or succeed with a stored voucher that
+// verifies under the device secret
+func VerifC03_FallibleHmac() {
+	verif.NoPanic()
+	verif.SetGhost("clock-concrete", 1)
+	verif.Expect("succeeded")
+	verif.Expect("failed")
+	verif.Bound("C03 hmac fault", "P-256; DI or TO2 with a device HMAC engine whose k-th Sum (k = 1..3, or never) fails, latches an error and returns 0 or 32 arbitrary bytes")
+	failAt := verif.Choose("failat", 4)
+	glen := 32 * verif.Choose("garbage32", 2)
+	secret := verif.Bytes("secret", 32)
+	healthy := func() (h256, h384 hash.Hash) { return hmac.New(sha256.New, secret), hmac.New(sha512.New384, secret) }
+	if verif.Choose("proto", 2) == 0 {
+		dev := &verif.ModelSigner{Pub: vcPub(vcP256, "dev")}
+		mfgPub := vcPub(vcP256, "mfg")
+		w := newVWorld()
+		w.newSession("T1")
+		cert := verif.NewCert(dev.Pub, verif.Bytes("serial", 4))
+		srv := &DIServer[int]{Session: w, Vouchers: w,
+			SignDeviceCertificate: func(*int) ([]*x509.Certificate, error) { return []*x509.Certificate{cert}, nil },
+			DeviceInfo: func(context.Context, *int, []*x509.Certificate) (string, protocol.PublicKey, error) {
+				return "d", vwPublicKey(vcP256, mfgPub), nil
+			},
+			RvInfo: func(context.Context, *Voucher) ([][]protocol.RvInstruction, error) { return nil, nil }}
+		loop := &vRespLoop{resp: srv, sctx: w.TokenContext(context.Background(), "T1"), cutAt: -1}
+		eng := &vFallibleHmac{Hash: hmac.New(sha256.New, secret), failAt: failAt, garbageLen: glen}
+		cred, err := DI(context.Background(), loop, nil, DIConfig{HmacSha256: eng, HmacSha384: hmac.New(sha512.New384, secret), Key: dev})
+		if err != nil {
+			verif.Assert(cred == nil, "a failed DI returns no credential")
+			verif.Reached("failed")
+			return
+		}
+		v, ok := w.store.vouchers[cred.GUID]
+		verif.Assert(ok, "the manufacturer stored the voucher")
+		h256, h384 := healthy()
+		verif.Assert(v.VerifyHeader(h256, h384) == nil, "after a DI that succeeded the stored voucher's header MAC verifies under the device secret")
+		verif.Reached("succeeded")
+		return
+	}
+	t := vMkTO2World(vcP256, false)
+	t.secret = secret
+	// re-MAC the world's voucher under this secret
+	ov := t.c.w.store.vouchers[t.c.guid]
+	mac, err := hmacHash(hmac.New(sha256.New, secret), &ov.Header.Val)
+	verif.Assert(err == nil, "harness: header MAC")
+	ov.Hmac = mac
+	// the first entry commits to header||MAC: rebuild the honest extension
+	base := *ov
+	base.Entries = nil
+	mfg := &verif.ModelSigner{Pub: vwMust2(ov.Header.Val.ManufacturerKey.Public())}
+	x, err := vwExtend(&base, mfg, t.c.owner.Public())
+	verif.Assert(err == nil, "harness: re-extend")
+	t.c.w.store.vouchers[t.c.guid] = x
+	eng := &vFallibleHmac{Hash: hmac.New(sha256.New, secret), failAt: failAt, garbageLen: glen}
+	t.cfg.HmacSha256, t.cfg.HmacSha384 = eng, hmac.New(sha512.New384, secret)
+	cred, err := TO2(context.Background(), t.loop, nil, t.cfg)
+	if err != nil {
+		verif.Assert(cred == nil, "a failed TO2 returns no credential")
+		verif.Reached("failed")
+		return
+	}
+	nv, ok := t.c.w.store.vouchers[cred.GUID]
+	verif.Assert(ok, "a returned credential has its replacement voucher stored")
+	h256, h384 := healthy()
+	verif.Assert(nv.VerifyHeader(h256, h384) == nil, "after a TO2 that succeeded the stored replacement voucher's header MAC verifies under the device secret")
+	verif.Reached("succeeded")
+}
+
+func vwMust2(k crypto.PublicKey, err error) crypto.PublicKey {
+	verif.Assert(err == nil, "harness: key parses")
+	return k
 }
